@@ -4,8 +4,14 @@ use dashu_base::{CubicRoot, CubicRootRem, EstimatedLog2, ExtendedGcd, Gcd, Squar
 use dashu_int::{IBig, UBig};
 use hlib::*;
 
+/// the no_std build of dashu-base answers 3u8.log2_bounds() from a literal; the std build from libm
+fn is_nostd() -> bool {
+    3u8.log2_bounds().0 == 1.5849625f32
+}
+
+/// f32 bounds: bit patterns marked with `~`; the token `ns` tells the oracle that dashu-base was built without std
 fn fb(x: (f32, f32)) -> String {
-    format!("ok {:x} {:x}", x.0.to_bits(), x.1.to_bits())
+    format!("ok ~{:x} ~{:x}{}", x.0.to_bits(), x.1.to_bits(), if is_nostd() { " ns" } else { "" })
 }
 
 fn u128_of(s: &str) -> u128 {
